@@ -40,7 +40,16 @@ func httpEngH2Status(block []byte) int {
 // wrapped in h2c.NewHandler (pkg/util/vhost/http.go), which takes the connection over (Hijack), answers
 // 101 and serves the request as stream 1 of an HTTP/2 connection; the reverse proxy forwards it to the
 // backend over HTTP/1.1 as any other request.  pr = the protocol the answer arrived in.
+//
+//	fh2c <host> <path> <routeUser|-> <status> <cl|ch|eof>:<rbody tok> d<k>      (fault op, see eng_http_fault.go)
+//	   => be=<id> rt=<id> ow=.. c=.. st=<code> pr=h2 n=<bytes of DATA frames> pre=<1|0> end=<ok|cut>
+//	      end = ok: the stream ended with END_STREAM | cut: RST_STREAM / GOAWAY / the connection ended
 func (st *httpEngState) doH2C(tok []string) string {
+	fault := tok[0] == "fh2c"
+	if fault {
+		// same wire protocol, GET without a body; the backend dies after k bytes of its answer body
+		tok = []string{"h2c", tok[1], tok[2], tok[3], "GET", "-", tok[4], tok[5], tok[6]}
+	}
 	host, path, method := unhx(tok[1]), unhx(tok[2]), tok[4]
 	user := ""
 	if tok[3] != "-" {
@@ -50,7 +59,13 @@ func (st *httpEngState) doH2C(tok []string) string {
 	if tok[5] != "-" {
 		body = httpEngTokBytes(tok[5])
 	}
-	spec := &httpEngRespSpec{status: atoi(tok[6]), kind: "cl", body: httpEngTokBytes(tok[7]), keep: false}
+	spec := &httpEngRespSpec{status: atoi(tok[6]), kind: "cl", keep: false}
+	if fault {
+		spec.kind, spec.body = httpEngBodySpec(tok[7])
+		spec.fault, spec.faultAt = httpEngFaultOf(tok[8])
+	} else {
+		spec.body = httpEngTokBytes(tok[7])
+	}
 	st.mu.Lock()
 	st.spec = spec
 	before := st.connSeq
@@ -62,6 +77,9 @@ func (st *httpEngState) doH2C(tok []string) string {
 	}
 	defer c.Close()
 	_ = c.SetDeadline(time.Now().Add(8 * time.Second))
+	if fault {
+		_ = c.SetDeadline(time.Now().Add(3 * time.Second))
+	}
 	// SETTINGS_INITIAL_WINDOW_SIZE (4) = 2^30
 	settings := []byte{0, 4, 0x40, 0, 0, 0}
 	var w bytes.Buffer
@@ -117,8 +135,13 @@ func (st *httpEngState) doH2C(tok []string) string {
 	_ = fr.WriteWindowUpdate(0, 1<<30)
 	status, got, done := 0, []byte(nil), false
 	var hdrBlock []byte
+	end := "ok"
 	for !done {
 		f, err := fr.ReadFrame()
+		if err != nil && fault {
+			end, done = "cut", true
+			break
+		}
 		if err != nil {
 			return fmt.Sprintf("be=%s rt=%s st=%d pr=h2 b=cut", hitOf(), rt, status)
 		}
@@ -142,10 +165,21 @@ func (st *httpEngState) doH2C(tok []string) string {
 			got = append(got, f.Data()...)
 			done = f.StreamEnded()
 		case *http2.RSTStreamFrame, *http2.GoAwayFrame:
+			if fault {
+				end, done = "cut", true
+				break
+			}
 			return fmt.Sprintf("be=%s rt=%s st=%d pr=h2 b=cut", hitOf(), rt, status)
 		}
 	}
 	seen := st.takeSeen(0)
+	if fault && seen != nil {
+		return fmt.Sprintf("be=%d rt=%s ow=%s c=%s st=%d pr=h2 n=%d pre=%d end=%s", seen.be, rt, st.ownerNote(seen.be, rt), st.connNote(before, seen),
+			status, len(got), btoi(bytes.HasPrefix(spec.body, got)), end)
+	}
+	if fault && end == "cut" {
+		return fmt.Sprintf("be=%s rt=%s st=%d pr=h2 b=cut", hitOf(), rt, status)
+	}
 	if seen == nil {
 		return fmt.Sprintf("be=%s rt=%s st=%d pr=h2 b=%s", hitOf(), rt, status, note(got))
 	}
